@@ -401,6 +401,11 @@ func (p *proxyConn) handle() error {
 
 func (p *proxyConn) writeErrorResponse(req *http.Request, err error) error {
 	res := maybeConnectErrorResponse(err)
+	if res != nil {
+		// The response was built for the transport's CONNECT request, answer the client's request.
+		res.Request = req
+		res.Proto, res.ProtoMajor, res.ProtoMinor = req.Proto, req.ProtoMajor, req.ProtoMinor
+	}
 	var challenge []string
 	if res == nil {
 		res = p.errorResponse(req, err)
